@@ -29,6 +29,8 @@ class FakeSocket:
         self.inbox: list[Any] = []  # bytes chunk / b"" (EOF) / Exception instance
         self.sent: list[tuple[float, bytes]] = []
         self.send_error: Exception | None = None  # raise on the next send (async flavour)
+        self.writable = True  # False: the kernel send buffer is full, send() would block
+        self.send_limit: int | None = None  # the next send() accepts only this many bytes (partial write), then the socket is full
         self.opts: list[tuple[int, int, Any]] = []
         self.created_at = net.loop.time()
         self.closed_at: float | None = None
@@ -99,12 +101,22 @@ class FakeSocket:
         if self.send_error is not None:
             err, self.send_error = self.send_error, None
             raise err
+        if not self.writable:
+            raise BlockingIOError(errno.EAGAIN, "send would block")
+        if self.send_limit is not None:
+            data = bytes(data)[: self.send_limit]
+            self.send_limit = None
+            self.writable = False
         b = bytes(data)
         self.sent.append((self.net.loop.time(), b))
         self.net.log("send", fd=self.fd, n=len(b))
         if self.on_send is not None:
             self.on_send(self, b)
         return len(b)
+
+    def sendmsg(self, buffers: Any, *a: Any) -> int:
+        """What the selector transport uses to flush its queue (a list of buffers in one call)."""
+        return self.send(b"".join(bytes(b) for b in buffers))
 
     def shutdown(self, how: int) -> None:
         pass
@@ -161,6 +173,8 @@ class Net:
                 out.append((s.fd, EVENT_READ))
             if s.connect_called is not None and s.connect_result is not None and not s.connect_reported:
                 out.append((s.fd, EVENT_WRITE))
+            elif s.connect_reported and s.writable:
+                out.append((s.fd, EVENT_WRITE))  # only delivered while the transport has a writer registered (buffered data)
         return out
 
     def log(self, kind: str, **kw: Any) -> None:
